@@ -31,7 +31,7 @@ ASSUMPTIONS = ["the child's DescribeExecution record is the reference for the fi
                "tasks is still checked"]
 FLOORS = {"evaluations": 400, "nontrivial": 250, "family:forms": 150, "family:tokens": 120, "family:cancel": 40, "sync_results_compared": 80, "fields_compared": 600,
           "continuations_checked_against_child_status": 80, "callbacks_sent": 150, "callbacks_refused": 40, "token_tasks_completed_by_callback": 60,
-          "cancellations_observed": 40, "token_layout:sequence": 20, "token_layout:retry": 8, "placement:top": 60, "placement:parallel": 30, "placement:map": 30, "schedules:random": 150}
+          "cancellations_observed": 40, "token_layout:sequence": 20, "token_layout:retry": 8, "token_layout:restart": 25, "cancel:exec-timeout": 8, "placement:top": 60, "placement:parallel": 30, "placement:map": 30, "schedules:random": 150}
 SHARDS = {"quick": 16, "thorough": 16}
 TECHNIQUE = "trace monitors over real parent/child executions and REST callbacks in the simulated world (result-shape comparison with the child's record, ordering and exactly-once oracles)"
 LEVEL_TEXT = ("Every integration form, child outcome, placement and callback stream is executed on the real dispatcher under several schedules; the launching task's result, "
@@ -337,6 +337,8 @@ def judge_cancel(ctx, sim, case, pe, children, catch, wit, cause, at):
         ok = (st == "FAILED" and err == "States.Timeout") if not catch else st == "SUCCEEDED"
         if not ok:
             ctx.violation("parent-task-time-out-not-reported", wit(dict(status=st, error=err)), None)
+    if cause == "exec-timeout" and not (st == "FAILED" and err == "States.Timeout"):
+        ctx.violation("parent-execution-time-out-not-reported", wit(dict(status=st, error=err)), None)
     late = []
     for fn in ("childnext", "slowwork", "childwork"):
         for r in w.workers[fn].requests:
@@ -356,9 +358,9 @@ def cancel_case(ctx, k):
     rng = ctx.rng("cancel", k)
     form = rng.choice(["sync", "sync2"])
     child_kind = rng.choice(["slowtask", "slowwait"])
-    cause = rng.choice(["timeout", "terminated"])
-    placement = rng.choice(["top", "map"]) if cause == "timeout" else "parallel"
-    catch = rng.random() < 0.4 and cause == "timeout"
+    cause = rng.choice(["timeout", "terminated", "exec-timeout"])
+    placement = rng.choice(["top", "map"]) if cause != "terminated" else "parallel"
+    catch = rng.random() < 0.4 and cause != "terminated"
     sched = 0 if rng.random() < 0.3 else rng.randrange(1, 10 ** 6)
     case = dict(family="cancel", form=form, child=child_kind, placement=placement, cause=cause, catch=catch, schedule=sched)
     ctx.evaluation(); ctx.count("family:cancel"); ctx.count("cancel:" + cause); ctx.nontrivial(case)
@@ -368,6 +370,8 @@ def cancel_case(ctx, k):
         w = sim.w
         child_arn = sim.machine("c", CHILDREN[child_kind])
         pm = parent_machine(form, child_arn, placement, timeout=5 if cause == "timeout" else None, catch=catch, sibling="latefail")
+        if cause == "exec-timeout":
+            pm["TimeoutSeconds"] = 5           # the execution's own deadline (no handler intercepts it), the Task has none
         parn = sim.machine("p", pm)
         if placement == "map":
             items = [{"k": 10 + i, "child": "ce%d" % i} for i in range(rng.randint(1, 2))]
@@ -385,7 +389,7 @@ def cancel_case(ctx, k):
             if st != "FAILED" or err != "Sibling.Boom":
                 ctx.violation("sibling-failure-did-not-fail-the-parent", wit(dict(status=st, error=err)), None)
                 return
-        judge_cancel(ctx, sim, case, pe, children, catch, wit, cause, at=5.0 if cause == "timeout" else 3.0)
+        judge_cancel(ctx, sim, case, pe, children, catch, wit, cause, at=3.0 if cause == "terminated" else 5.0)
     finally:
         sim.close()
 
@@ -683,9 +687,82 @@ def token_sequence_case(ctx, k):
         sim.close()
 
 
+def token_restart_case(ctx, k):
+    """The engine that owns a callback task is down while callbacks arrive (through another instance's front end); after its restart the
+    FIRST accepted callback decides the task, whatever came later."""
+    rng = ctx.rng("tokrestart", k)
+    second = rng.choice(["success-other-output", "failure", "none"])
+    sched = 0 if rng.random() < 0.3 else rng.randrange(1, 10 ** 6)
+    case = dict(family="tokens", layout="restart", second_callback=second, schedule=sched)
+    ctx.evaluation(); ctx.count("family:tokens"); ctx.count("token_layout:restart"); ctx.nontrivial(case)
+    ctx.count("schedules:random" if sched else "schedules:canonical")
+    w = World(seed=ctx.seed, instances=("i1",), store="redis")
+    try:
+        notes = NotificationMonitor(w)
+        handed = []
+        w.add_worker("cb", lambda wk, req: (handed.append(req["payload"].get("token")), NOREPLY)[1])
+        w.add_worker("after", lambda wk, req: req["payload"])
+        # (Pre: the Task's event must live in the owner's instance queue; the event of a Task that is the StartAt state is the start message
+        # itself, in the shared queue, and would be redelivered to whichever instance is up - that is C04/C19 territory, not this property's)
+        asl = {"StartAt": "Pre", "States": {"Pre": {"Type": "Pass", "Next": "T"}, "T": {"Type": "Task", "Resource": "arn:aws:states:local::rpcmessage:invoke.waitForTaskToken",
+                                                "Parameters": {"FunctionName": FN + "cb", "Payload": {"token.$": "$$.Task.Token"}}, "ResultPath": "$.r", "Next": "After"},
+                                          "After": {"Type": "Task", "Resource": FN + "after", "End": True}}}
+        arn = w.create_machine("p", asl)
+        pe = w.start_event(arn, "pe", {"x": 1})
+        pol = canonical if sched == 0 else make_random(random.Random(sched))
+        w.run(pol, until=lambda world: bool(handed))
+        w.drain_instantaneous(pol)
+        if not handed:
+            ctx.inconclusive("token never handed out")
+            return
+        w.start_engine("i2")
+        w.crash_engine("i1")
+        stream = []
+        code, body = w.api("SendTaskSuccess", {"taskToken": handed[0], "output": json.dumps({"answer": "first"})}, iid="i2")
+        stream.append(["first", code]); ctx.count("callbacks_sent")
+        if second == "success-other-output":
+            code2, _ = w.api("SendTaskSuccess", {"taskToken": handed[0], "output": json.dumps({"answer": "second"})}, iid="i2"); stream.append(["second-success", code2]); ctx.count("callbacks_sent")
+        elif second == "failure":
+            code2, _ = w.api("SendTaskFailure", {"taskToken": handed[0], "error": "Late.Failure", "cause": "second"}, iid="i2"); stream.append(["second-failure", code2]); ctx.count("callbacks_sent")
+        w.clock.now += rng.choice([0.0, 0.5, 2.0])
+        e1 = w.start_engine("i1")
+        registered = []          # broker-log positions at which the restarted engine (re-)registered a pending request
+
+        class Recording(dict):
+            def __setitem__(self, key, value):
+                registered.append(len(w.broker.oplog))
+                dict.__setitem__(self, key, value)
+        e1.td.pending_requests = Recording(e1.td.pending_requests)
+        w.run(pol)
+        w.advance(w.orphan_retention_ms / 1000.0 + 2); w.run(pol)
+        st, out, err, t = w.outcome(pe)
+        ctx.count("token_tasks_completed_by_callback")
+        wit = dict(case=case, stream=stream, status=st, output=out, error=err,
+                   notifications=[(round(n["t"] - EPOCH0, 3), n["body"]["detail"]["status"], n["body"]["detail"].get("error")) for n in w.notifications],
+                   schedule=[list(l) for l in w.trace[:120]])
+        if code != 200:
+            ctx.violation("valid-token-refused", wit, None)
+        elif st != "SUCCEEDED" or not isinstance(out, dict) or out.get("r") != {"answer": "first"}:
+            # listed mechanism: the first callback reached the restarted engine before the Task's redelivered event (so it was parked as an
+            # orphan, to be matched by the periodic check) and the second one after it (so it was matched at once): the later callback overtakes
+            restart_n = max([r["n"] for r in w.broker.oplog if r["op"] == "connection_open" and r["conn"] == "engine:i1"] or [0])
+            cbs = [r["n"] for r in w.broker.oplog if r["n"] > restart_n and r["op"] == "deliver" and r["conn"] == "engine:i1" and r["queue"].startswith("asl_workflow_reply_to")
+                   and str(r.get("correlation_id") or "").endswith(".waitForTaskToken")]
+            seq = dict(callbacks_delivered_at=cbs, request_registered_at=registered[:1])
+            overtaken = second != "none" and len(cbs) >= 2 and registered and cbs[0] < registered[0] <= cbs[1]
+            ctx.violation("callback-after-restart-did-not-complete-the-task-with-the-first-accepted-output", dict(wit, deliveries_after_restart=seq),
+                          "parked-callback-overtaken-by-a-later-one-after-restart" if overtaken else None)
+        for v in notes.violations:
+            if not (v["rule"] in ("N-duplicate-running",) and v.get("after_crash")):
+                ctx.violation(v["rule"], dict(wit, violation=v), None)
+        ctx.distinct("runs", [case, len(w.trace)])
+    finally:
+        w.close()
+
+
 def run(ctx):
     i = 0
-    for fam, n, fn in (("forms", ctx.pick(260, 24000), forms_case), ("cancel", ctx.pick(60, 5000), cancel_case), ("tokens", ctx.pick(200, 18000), token_case),
+    for fam, n, fn in (("tokrestart", ctx.pick(40, 3000), token_restart_case), ("forms", ctx.pick(260, 24000), forms_case), ("cancel", ctx.pick(60, 5000), cancel_case), ("tokens", ctx.pick(200, 18000), token_case),
                        ("tokseq", ctx.pick(60, 5000), token_sequence_case)):
         for k in range(n):
             i += 1
